@@ -80,6 +80,45 @@ impl<K: PartialEq + Copy, V> HashMap<K, V> {
         n
     }
 
+    pub fn clear(&mut self) {
+        let mut i = 0;
+        while i < CAP {
+            self.slots[i] = None;
+            i += 1;
+        }
+    }
+
+    pub fn is_empty(&self) -> bool {
+        self.len() == 0
+    }
+
+    pub fn get(&self, k: &K) -> Option<&V> {
+        let mut i = 0;
+        while i < CAP {
+            if let Some((kk, v)) = &self.slots[i] {
+                if kk == k {
+                    return Some(v);
+                }
+            }
+            i += 1;
+        }
+        None
+    }
+
+    pub fn retain<F: FnMut(&K, &mut V) -> bool>(&mut self, mut f: F) {
+        let mut i = 0;
+        while i < CAP {
+            let keep = match &mut self.slots[i] {
+                Some((k, v)) => f(k, v),
+                None => true,
+            };
+            if !keep {
+                self.slots[i] = None;
+            }
+            i += 1;
+        }
+    }
+
     pub fn contains_key(&self, k: &K) -> bool {
         let mut i = 0;
         while i < CAP {
